@@ -86,9 +86,10 @@ def cleanup():
 
 
 def to_real(path):
-    """'/sim/x' -> '<private dir>/x' (only called for paths under the virtual root)"""
-    p = norm(path)
-    return real_root() + p[len(ROOT):]
+    """'/sim/x' -> '<private dir>/x' (only called for paths under the virtual root).  The path is NOT normalised
+    textually: 'a/../b' is resolved by the kernel, component by component, exactly as it would be on a real disk
+    (so 'a' must exist; a symlink 'a' is followed)."""
+    return real_root() + path[len(ROOT):]
 
 
 def to_sim(real):
@@ -314,8 +315,8 @@ class SimFS(object):
 
     # ---- what the code under test reaches through the interposed builtins.open ----------------------------
     def open(self, path, mode="r", *args, **kwargs):
-        path = norm(path)
-        real = to_real(path)
+        real = to_real(path)        # as given: the kernel resolves it
+        path = norm(path)           # key for the trace and the fault plan
         if any(c in mode for c in "wax+"):
             try:
                 f = _o_open(real, mode, *args, **kwargs)
